@@ -252,7 +252,7 @@ func CheckC19(e *Env) int {
 	for pos := 0; pos < 2; pos++ {
 		for _, panicForm := range []bool{false, true} {
 			for _, withParam := range []bool{false, true} {
-				for _, class := range []string{"missing", "need-err"} {
+				for _, class := range []string{"missing", "need-err", "need-cleanup", "unused", "conflict"} {
 					b := NewPB(nid(), "app")
 					a, c, d := b.Carrier(0, "A"), b.Carrier(0, "C"), b.Carrier(0, "D")
 					fa := b.Func(0, "NewA", a, false, false)
@@ -262,12 +262,22 @@ func CheckC19(e *Env) int {
 					var fc *Item
 					if withParam {
 						params = []Param{{Name: "d", Ty: d}}
-						fc = b.Func(0, "NewC", c, false, class == "need-err", d)
+						fc = b.Func(0, "NewC", c, class == "need-cleanup", class == "need-err", d)
 					} else {
-						fc = b.Func(0, "NewC", c, false, class == "need-err")
+						fc = b.Func(0, "NewC", c, class == "need-cleanup", class == "need-err")
 					}
 					fc.Stub = true
 					build := []Ref{ItemRef(fc.ID)}
+					switch class {
+					case "unused":
+						extra := b.Func(0, "NewUnusedThing", b.Carrier(0, "UnusedThing"), false, false)
+						extra.Stub = true
+						build = append(build, ItemRef(extra.ID))
+					case "conflict":
+						extra := b.Func(0, "NewCAgain", c, false, false)
+						extra.Stub = true
+						build = append(build, ItemRef(extra.ID))
+					}
 					if class == "missing" {
 						fc.Params = append(fc.Params, b.Carrier(0, "Absent"))
 					}
@@ -314,7 +324,7 @@ func CheckC19(e *Env) int {
 	for i, pr := range results {
 		c := cases[i]
 		if pr.PreBad != "" {
-			rep.Incon = append(rep.Incon, "harness: "+pr.P.ID+" ("+c.class+"): "+secondLine(pr.PreBad))
+			rep.Incon = append(rep.Incon, "harness: "+pr.P.ID+" ("+c.class+"): "+firstLine(pr.PreBad)+" / "+secondLine(pr.PreBad))
 			continue
 		}
 		if pr.Incon != "" {
